@@ -6,7 +6,7 @@ import re
 
 from sa.engine.consts import UNKNOWN
 from sa.engine.context import Ctx
-from sa.engine.loader import AnalysisError, dotted, norm, short, walk_own
+from sa.engine.loader import AnalysisError, anorm, dotted, local_names, norm, short, walk_own
 from sa.engine.report import Finding, RuleReport
 from sa.rules.common import DT, X
 
@@ -89,8 +89,8 @@ def rule_sib(ctx: Ctx) -> RuleReport:
 ATT_SITES = [
     # module, function, allowed skip conditions (normalised test text, branch) / 'exc:<stmt>'
     (EML, "_read_eml_format", set()),
-    (MBOX, "get_attachments", {("part.is_multipart()", "true"), ("not filename and 'attachment' not in content_disposition", "true")}),
-    (MSG, "_extract_msg_attachments", {("exc", "data = ole.openstream([storage, '__substg1.0_37010102']).read()")}),
+    (MBOX, "get_attachments", {("v0.is_multipart()", "true"), ("not v0 and 'attachment' not in v1", "true")}),
+    (MSG, "_extract_msg_attachments", {("exc", "v0 = v1.openstream([v2, '__substg1.0_37010102']).read()")}),
 ]
 
 
@@ -100,7 +100,7 @@ def rule_att(ctx: Ctx) -> RuleReport:
         fi = ctx.p.maybe_func(rel, q)
         if fi is None:
             raise AnalysisError(f"C16-ATT: {rel}::{q} vanished")
-        appends = [n for n in walk_own(fi.node) if isinstance(n, ast.Call) and isinstance(n.func, ast.Attribute) and n.func.attr == "append" and norm(n.func.value) == "attachments"
+        appends = [n for n in walk_own(fi.node) if isinstance(n, ast.Call) and isinstance(n.func, ast.Attribute) and n.func.attr == "append" and isinstance(n.func.value, ast.Name)
                    and n.args and isinstance(n.args[0], ast.Call) and (dotted(n.args[0].func) or "").endswith("EmailAttachment")]
         if len(appends) != 1:
             raise AnalysisError(f"C16-ATT: expected one attachments.append(EmailAttachment(...)) in {q}, found {len(appends)}")
@@ -112,6 +112,7 @@ def rule_att(ctx: Ctx) -> RuleReport:
         if loop is None:
             raise AnalysisError(f"C16-ATT: the append in {q} is not inside a loop")
         rep.unit(fi.key)
+        locs = local_names(fi.node)
         cfg = ctx.cfg(fi)
         heads = set(cfg.loop_head.get(id(loop), []))
         ins = cfg.loop_body_in.get(id(loop), [])
@@ -146,9 +147,9 @@ def rule_att(ctx: Ctx) -> RuleReport:
                 lab = cfg.elabel.get((a, b))
                 nd = cfg.nodes[a]
                 if nd.kind == "test" and lab in ("true", "false"):
-                    reasons.append((norm(nd.ast), lab))
+                    reasons.append((anorm(nd.ast, rename=locs), lab))
                 elif lab == "exc":
-                    reasons.append(("exc", norm(nd.ast) if nd.ast is not None else "?"))
+                    reasons.append(("exc", anorm(nd.ast, rename=locs) if nd.ast is not None else "?"))
             if not any(r in allowed for r in reasons):
                 bad.append(reasons)
         if bad:
@@ -162,7 +163,7 @@ def rule_att(ctx: Ctx) -> RuleReport:
         present = set()
         for nd in cfg.nodes:
             if nd.kind == "test":
-                present.add(norm(nd.ast))
+                present.add(anorm(nd.ast, rename=locs))
         for (t, b) in allowed:
             if t != "exc" and t not in present:
                 rep.info.append(f"{q}: whitelisted skip condition no longer present: {t}")
@@ -181,7 +182,8 @@ def rule_att(ctx: Ctx) -> RuleReport:
     # eml: binary payloads are base64 in mailparser's dictionaries
     fi = ctx.p.func(EML, "_read_eml_format")
     b64 = [n for n in walk_own(fi.node) if isinstance(n, ast.Call) and dotted(n.func) == "base64.b64decode"]
-    binary_test = [n for n in walk_own(fi.node) if isinstance(n, ast.If) and "is_binary" in norm(n.test)]
+    bin_vars = {n.targets[0].id for n in walk_own(fi.node) if isinstance(n, ast.Assign) and len(n.targets) == 1 and isinstance(n.targets[0], ast.Name) and "'binary'" in norm(n.value)}
+    binary_test = [n for n in walk_own(fi.node) if isinstance(n, ast.If) and isinstance(n.test, ast.Name) and n.test.id in bin_vars]
     if b64 and binary_test and all(any(x is c for t in binary_test for st in t.body for x in ast.walk(st)) for c in b64):
         rep.ok({"fn": "_read_eml_format", "binary payload": "base64.b64decode under `if is_binary`"})
     else:
@@ -299,12 +301,13 @@ def rule_route(ctx: Ctx) -> RuleReport:
     loop = loops[0]
     tries = [s for s in loop.body if isinstance(s, ast.Try)]
     # 1. name first
-    name_try = [t for t in tries if any(isinstance(n, ast.Call) and norm(n) == "get_extractor(attachment.filename)" for st in t.body for n in ast.walk(st))]
+    LV = loop.target.id if isinstance(loop.target, ast.Name) else "attachment"
+    name_try = [t for t in tries if any(isinstance(n, ast.Call) and norm(n) == f"get_extractor({LV}.filename)" for st in t.body for n in ast.walk(st))]
     if name_try:
         rep.ok({"step": "get_extractor(attachment.filename) tried first"})
         t = name_try[0]
         hs = [h for h in t.handlers if "ExtractionFileFormatNotSupportedError" in norm(h.type or ast.Constant(value=""))]
-        uses_mime = hs and any("MIME_TYPE_MAPPING.get(attachment.mime_type)" in norm(st) for st in hs[0].body)
+        uses_mime = hs and any(f"MIME_TYPE_MAPPING.get({LV}.mime_type)" in norm(st) for st in hs[0].body)
         if uses_mime:
             rep.ok({"step": "MIME_TYPE_MAPPING.get(attachment.mime_type) as fallback"})
         else:
@@ -318,7 +321,8 @@ def rule_route(ctx: Ctx) -> RuleReport:
         return rep
     t = ex_try[0]
     yf = [n for st in t.body for n in ast.walk(st) if isinstance(n, ast.YieldFrom)][0]
-    if norm(yf.value) == "extractor(attachment.data, attachment.filename)":
+    ext_vars = {n.targets[0].id for n in ast.walk(loop) if isinstance(n, ast.Assign) and len(n.targets) == 1 and isinstance(n.targets[0], ast.Name) and isinstance(n.value, ast.Call) and (dotted(n.value.func) or "") == "get_extractor"}
+    if isinstance(yf.value, ast.Call) and isinstance(yf.value.func, ast.Name) and yf.value.func.id in ext_vars and [norm(a) for a in yf.value.args] == [f"{LV}.data", f"{LV}.filename"]:
         rep.ok({"step": "extractor(attachment.data, attachment.filename)"})
     else:
         rep.fail(Finding("C16-ROUTE", DT, fi.qual, norm(yf.value), "the attachment is not extracted from its own stream under its own name", line=yf.lineno))
@@ -329,8 +333,8 @@ def rule_route(ctx: Ctx) -> RuleReport:
         rep.fail(Finding("C16-ROUTE", DT, fi.qual, "no swallowing handler", "a failing attachment aborts the iteration over the remaining attachments", line=t.lineno))
     idx = loop.body.index(t)
     before = loop.body[idx - 1] if idx > 0 else None
-    rewound_before = before is not None and norm(before) == "attachment.data.seek(0)"
-    rewound_after = any(norm(st) == "attachment.data.seek(0)" for st in t.finalbody)
+    rewound_before = before is not None and norm(before) == f"{LV}.data.seek(0)"
+    rewound_after = any(norm(st) == f"{LV}.data.seek(0)" for st in t.finalbody)
     if rewound_before and rewound_after:
         rep.ok({"step": "seek(0) before and in finally"})
     else:
